@@ -98,6 +98,80 @@ theorem stream_replace (fs fs' : FS) (l₁ l₂ : List Path) (p q : Path)
   rw [List.append_assoc, List.append_assoc] at h3
   exact hb (List.append_cancel_right h3)
 
+/-! ### the length table (fix F8B): stream and length table together are an injective encoding -/
+
+theorem be64_length (n : Nat) : (be64 n).length = 8 := rfl
+
+theorem be64_inj {a b : Nat} (h : be64 a = be64 b) : a = b := by
+  simp only [be64, List.cons.injEq, and_true] at h
+  omega
+
+/-- `be64` is what `binary.Write` of a big-endian `uint64` writes: for `n < 2^64` every entry is a byte -/
+theorem be64_bytes (n : Nat) (h : n < 18446744073709551616) : ∀ b ∈ be64 n, b < 256 := by
+  intro b hb
+  simp only [be64, List.mem_cons, List.not_mem_nil, or_false] at hb
+  omega
+
+theorem lenTable_congr (fs fs' : FS) (l : List Path) (h : ∀ p ∈ l, contentOf fs' p = contentOf fs p) :
+    lenTable nm fs' l = lenTable nm fs l := by
+  induction l with
+  | nil => rfl
+  | cons a l ih =>
+    simp only [lenTable]
+    rw [h a (by simp), ih (fun p hp => h p (by simp [hp]))]
+
+theorem lenTable_length (fs : FS) (l : List Path) : (lenTable nm fs l).length = 16 * l.length := by
+  induction l with
+  | nil => rfl
+  | cons a l ih => simp only [lenTable, List.length_append, be64_length, ih, List.length_cons]; omega
+
+/-- **stream and length table together determine the list of (name, content)**: the table has 16
+bytes per file — so it gives the number of files and every length —, and cutting the stream at those
+lengths gives every name and every content.  No hypothesis on names, contents or file systems. -/
+theorem stream_lenTable_inj (nm' : Path → Bytes) (fs fs' : FS) : ∀ (l l' : List Path),
+    stream nm fs l = stream nm' fs' l' → lenTable nm fs l = lenTable nm' fs' l' →
+    l.map (fun p => (nm p, contentOf fs p)) = l'.map (fun p => (nm' p, contentOf fs' p))
+  | [], [], _, _ => rfl
+  | [], b :: l', _, ht => by
+    have := congrArg List.length ht
+    rw [lenTable_length, lenTable_length] at this
+    simp at this
+  | a :: l, [], _, ht => by
+    have := congrArg List.length ht
+    rw [lenTable_length, lenTable_length] at this
+    simp at this
+  | a :: l, b :: l', hs, ht => by
+    simp only [lenTable] at ht
+    have h1 := List.append_inj ht (by simp only [List.length_append, be64_length])
+    have h2 := List.append_inj h1.1 (by simp only [be64_length])
+    have hn : (nm a).length = (nm' b).length := be64_inj h2.1
+    have hc : (contentOf fs a).length = (contentOf fs' b).length := be64_inj h2.2
+    simp only [stream] at hs
+    have h3 := List.append_inj hs (by simp only [List.length_append, hn, hc])
+    have h4 := List.append_inj h3.1 hn
+    have ih := stream_lenTable_inj nm' fs fs' l l' h3.2 h1.2
+    simp only [List.map_cons, h4.1, h4.2, ih]
+
+/-- … hence the list of (path, content), when the names are injective on the listed paths -/
+theorem stream_lenTable_inj_paths (fs fs' : FS) (l l' : List Path)
+    (hnm : ∀ p ∈ l, ∀ q ∈ l', nm p = nm q → p = q)
+    (hs : stream nm fs l = stream nm fs' l') (ht : lenTable nm fs l = lenTable nm fs' l') :
+    l.map (fun p => (p, contentOf fs p)) = l'.map (fun p => (p, contentOf fs' p)) := by
+  have hm := stream_lenTable_inj nm nm fs fs' l l' hs ht
+  clear hs ht
+  induction l generalizing l' with
+  | nil =>
+    cases l' with
+    | nil => rfl
+    | cons b l' => simp at hm
+  | cons a l ih =>
+    cases l' with
+    | nil => simp at hm
+    | cons b l' =>
+      simp only [List.map_cons, List.cons.injEq, Prod.mk.injEq] at hm ⊢
+      have hab : a = b := hnm a (by simp) b (by simp) hm.1.1
+      exact ⟨⟨hab, hm.1.2⟩, ih l' (fun p hp q hq => hnm p (by simp [hp]) q (by simp [hq])) hm.2⟩
+
 /-! ### adding / removing a file -/
 
 theorem ahas_aset (fs : FS) (q p : Path) (f : File) : ahas (aset fs q f) p = (decide (q = p) || ahas fs p) := by
